@@ -556,6 +556,9 @@ func (m *machine) assertCond(c value, label string, pos string) {
 	case bool:
 		if c {
 			rec.Trivial++
+			if len(m.known) > 0 {
+				m.known = map[string]*Term{}
+			}
 			return
 		}
 		ct = m.ts.False
@@ -591,6 +594,10 @@ func (m *machine) assertCond(c value, label string, pos string) {
 		if r == Sat {
 			m.recordViolation(label, "assertion can fail (known class)", k, model, pos)
 		}
+	}
+	// known-class predicates are scoped to the assertion that follows them
+	if len(m.known) > 0 {
+		m.known = map[string]*Term{}
 	}
 	// continue under the assumption that the assertion held
 	if ct.IsFalse() {
